@@ -243,9 +243,11 @@ pub fn oracle(f: u32, a: &Args, out: &Args) -> Option<(&'static str, String)> {
 }
 
 // ---------- generators ----------
-const NAMES: [&str; 14] = [
+const NAMES: [&str; 20] = [
     ":method", ":scheme", ":protocol", ":authority", ":path", ":status", "origin", "user-agent", "accept",
     "content-type", "x-custom", "sec-webtransport-http3-draft", "cookie", "x",
+    // names that differ from a static-table name only by case: they are different strings
+    "Origin", "Content-Type", "ACCEPT", "Cookie", "X-Custom", "User-Agent",
 ];
 
 fn rand_token(rng: &mut Rng, n: usize) -> String {
